@@ -669,8 +669,9 @@ class SymReal:
     def ceil(self):
         return SymInt(-z3.ToInt(-self.e))
 
-    def __floor__(self): return self.floor()
-    def __ceil__(self): return self.ceil()
+    # math.floor/math.ceil must return an Integral: concretise exhaustively
+    def __floor__(self): return Ctx.cur.concretize(self.floor().e)
+    def __ceil__(self): return Ctx.cur.concretize(self.ceil().e)
 
     def __float__(self):
         raise OutOfModel('float() of a symbolic real requested')
